@@ -378,6 +378,9 @@ def c10(res):
     run_family(res, "C10", ["sym_cover", "verdicts", "witness", "paths", "subset", "no_panic"], graphs, cfgs)
     if not q:
         example_2pc(res, sizes=(), sym_sizes=(3, 5))
+    # design level: the search algorithm with symmetry reduction, all interleavings, on small symmetric graphs
+    small_sym = [g for g in (gg.symmetric_graph(rng, "S-%d" % i, eventually=(i % 2 == 0)) for i in range(60 if q else 300)) if g["n"] <= 9][: (24 if q else 100)]
+    checker_design_sym(res, small_sym, q)
     # the shipped symmetric example (canonical representative = sorted thread states): exactly one state per orbit
     example_increment_lock(res, ns=((3, 4) if q else (3, 4, 5, 6)))
     res.rule = ("(a) from_values_to_sort / reindex / rewrite on all vectors (with ties) and 13 container kinds under all plans; "
@@ -514,6 +517,39 @@ def checker_design(res, graphs_small, q):
             if line.startswith('<<"RUN", "') and line.endswith('">>'):
                 preds.append(json.loads(line[len('<<"RUN", "'):-3].replace('\\"', '"').replace("\\\\", "\\")))
     items = [dict(g=g, gi=i + 1, cfgs=[gg.base_cfg("bfs", 1), gg.base_cfg("dfs", 1)]) for i, g in enumerate(graphs_small)]
+    drift_compare(res, wd, preds, items)
+    shutil.rmtree(wd, ignore_errors=True)
+
+
+def checker_design_sym(res, graphs_sym, q):
+    """Checker.tla with Symmetry = TRUE (DFS, the set of generated states holds representatives) on small symmetric
+    process-vector graphs: all interleavings of 1-2 workers judged by CheckerObs (sym_cover, verdicts, witness, paths);
+    the historical bug (continuing with the representative) as a failing spec mutant; drift of the real symmetric DFS."""
+    wd = workdir("checkersym-%s-%s" % (res.pid, res.tier))
+    gp = os.path.join(wd, "g.ndjson")
+    write_ndjson(gp, graphs_sym)
+    for cfg in (["Checker_dfs_1w_sym", "Checker_dfs_2w_sym"]):
+        r = run_tlc("Checker.tla", "cfg/%s.cfg" % cfg, env=dict(GRAPHS=gp), workers=10, timeout=3000, heap="10g", name=cfg)
+        res.add_tlc(r, cfg)
+        if not r["ok"]:
+            raise ToolError("%s: %s violated on the algorithm SPEC\n%s" % (cfg, r["violated"], r["out"][-3000:]))
+    r = run_tlc("Checker.tla", "cfg/Checker_dfs_1w_sym_enqrep.cfg", env=dict(GRAPHS=gp), workers=4, timeout=1200, name="checker-enqrep")
+    if r["violated"] != "WitnessAlways":
+        res.notes.append("self-check: the enqueue-the-representative spec variant did not violate WitnessAlways on this corpus (%s)" % r["violated"])
+    else:
+        res.notes.append("self-check: the enqueue-the-representative spec variant (historical bug) violates WitnessAlways as expected")
+    preds = []
+    r = run_tlc("Checker.tla", "cfg/Checker_dfs_predict_sym.cfg", env=dict(GRAPHS=gp), workers=1, timeout=1200, name="predict-dfs-sym")
+    res.add_tlc(r, "Checker_dfs_predict_sym")
+    for line in r["out"].splitlines():
+        if line.startswith('<<"RUN", "') and line.endswith('">>'):
+            preds.append(json.loads(line[len('<<"RUN", "'):-3].replace('\\"', '"').replace("\\\\", "\\")))
+    items = [dict(g=g, gi=i + 1, cfgs=[gg.base_cfg("dfs", 1, symmetry=True)]) for i, g in enumerate(graphs_sym)]
+    drift_compare(res, wd, preds, items)
+    shutil.rmtree(wd, ignore_errors=True)
+
+
+def drift_compare(res, wd, preds, items):
     runs = execute(wd, items, par=4)
     pp, rp, op = os.path.join(wd, "pred.ndjson"), os.path.join(wd, "runs.ndjson"), os.path.join(wd, "drift.json")
     write_ndjson(pp, preds)
@@ -525,8 +561,7 @@ def checker_design(res, graphs_small, q):
             log("SPEC-DRIFT: %d of %d single-threaded runs differ from what Checker.tla predicts step by step (visit order / kept witness / "
                 "counters); property-level judges decide whether that is a violation" % (len(o["drift"]), o["n"]))
         res.notes.append("Checker.tla predicted %d single-threaded behaviours; %d real runs compared, %d drift" % (o["compared"], o["n"], len(o["drift"])))
-        res.extra["spec_drift_runs"] = len(o["drift"])
-    shutil.rmtree(wd, ignore_errors=True)
+        res.extra["spec_drift_runs"] = res.extra.get("spec_drift_runs", 0) + len(o["drift"])
 
 
 def example_2pc(res, sizes=(3,), sym_sizes=()):
